@@ -679,6 +679,112 @@ def replay_f14(chk, runs=48):
     return line, seen
 
 
+# ------------------------------------------------------------------------------------------------
+# the real Viseca and Camt-shaped matchers see the payee AS REWRITTEN by earlier rules (single-field elements: no hash order)
+
+CHAIN_WORDS = ["Migros", "Coop", "Kiosk", "SBB", "Shop", "Bar"]
+
+
+def run_viseca_chain(chk, n):
+    """statements through the real Viseca importer under rule chains in which an earlier rule rewrites the payee (from the
+    category line, or to a literal) and a later rule matches the REWRITTEN payee; an independent reading of C17's fold decides
+    payee, counter-account and pending mark of every transaction"""
+    rng = chk.rng
+    lines, metas = [], []
+    for i in range(n):
+        recs = []
+        for k in range(rng.randint(1, 4)):
+            recs.append({"payee": rng.choice(CHAIN_WORDS), "category": rng.choice([None, "T" + rng.choice(CHAIN_WORDS), rng.choice(CHAIN_WORDS)]),
+                         "cents": rng.randint(100, 99999), "day": 10 + k})
+        rules = []
+        for _ in range(rng.randint(1, 5)):
+            kind = rng.choice(["cat-cap", "payee-acct", "payee-lit", "payee-acct", "cat-acct"])
+            w = rng.choice(CHAIN_WORDS)
+            if kind == "cat-cap":
+                rules.append({"m": [("category", "^T(?P<payee>.*)$")]})
+            elif kind == "payee-acct":
+                rules.append({"m": [("payee", "^%s$" % w)], "account": "Expenses:" + w, "pending": rng.random() < 0.3})
+            elif kind == "payee-lit":
+                rules.append({"m": [("payee", "^%s$" % w)], "payee": w + " Inc"})
+                if rng.random() < 0.6:
+                    rules.append({"m": [("payee", "^%s Inc$" % w)], "account": "Expenses:Inc:" + w, "pending": rng.random() < 0.3})
+            else:
+                rules.append({"m": [("category", "^%s$" % w)], "account": "Expenses:Cat:" + w})
+        y = ["path: card", "encoding: UTF-8", "account: Liabilities:Card", "account_type: liability", "commodity: CHF", "operator: Card fee", "rewrite:"]
+        for ru in rules:
+            y.append("  - matcher:")
+            for f, pat in ru["m"]:
+                y.append("      %s: \"%s\"" % (f, pat))
+            if "account" in ru:
+                y.append("    account: %s" % ru["account"])
+            if ru.get("pending"):
+                y.append("    pending: true")
+            if "payee" in ru:
+                y.append("    payee: %s" % ru["payee"])
+        stmt = ""
+        for r_ in recs:
+            stmt += "%02d.08.20 %02d.08.20 %s %d.%02d\n" % (r_["day"], r_["day"] + 1, r_["payee"], r_["cents"] // 100, r_["cents"] % 100)
+            if r_["category"] is not None:
+                stmt += r_["category"] + "\n"
+        cfg = "\n".join(y) + "\n"
+        lines.append("%s %s %s" % (enc("card.txt"), enc(cfg), enc(stmt)))
+        metas.append((recs, rules, cfg, stmt))
+    impl = run_hx(["c15", "viseca"], lines)
+    chk.streams["viseca-chain (real importer vs the fold as stated)"] = len(lines)
+    for (recs, rules, cfg, stmt), line, a in zip(metas, lines, impl):
+        chk.case(("viseca-chain", cfg, stmt), nontrivial=len(rules) >= 2)
+        chk.traces += 1
+        replay = {"stream": "c17 viseca-chain", "config": cfg, "statement": stmt, "observed": a[:3000],
+                  "rerun": "echo '%s' | /verif/work/target/debug/hx c15 viseca" % line}
+        if not a.startswith("(ok "):
+            chk.violation("harness could not run the case: " + a[:200], replay, no_failing_input=True, tag="err")
+            continue
+        imp = sx_find(sx_parse(a), "import")
+        if not imp or imp[1][0] != "ok":
+            chk.oracle_failures += 1
+            chk.violation("a well-formed Viseca statement with valid rules was not imported: %s" % sx_str(imp)[:200], replay)
+            continue
+        txns = [t for t in imp[1][1:] if t and t[0] == "txn"]
+        if len(txns) != len(recs):
+            chk.oracle_failures += 1
+            chk.violation("%d transactions for %d records" % (len(txns), len(recs)), replay)
+            continue
+        for r_, t in zip(recs, txns):
+            cur, account, cleared, rewritten = r_["payee"], None, False, False
+            for ru in rules:
+                ok, cap = True, None
+                for f, pat in ru["m"]:
+                    hay = cur if f == "payee" else r_["category"]
+                    m = re.search(pat, hay) if hay is not None else None
+                    if not m:
+                        ok = False
+                        break
+                    if "payee" in m.groupdict():
+                        cap = m.group("payee")
+                if not ok:
+                    continue
+                if cap is not None:
+                    cur, rewritten = cap, True
+                if "payee" in ru:
+                    cur, rewritten = ru["payee"], True
+                if "account" in ru:
+                    account = ru["account"]
+                    if not ru.get("pending"):
+                        cleared = True
+            got_payee = dec(t[5]) if isinstance(t[5], str) else sx_str(t[5])
+            post0 = t[6][0]
+            got_acct, got_mark = dec(post0[1]), post0[2]
+            want_acct = account or "Expenses:Unknown"
+            want_mark = "u" if cleared else "p"
+            chk.count("viseca-chain:" + ("rewritten-then-matched" if rewritten and account else "rewritten" if rewritten else "plain"))
+            if (got_payee, got_acct, got_mark) != (cur, want_acct, want_mark):
+                chk.oracle_failures += 1
+                chk.violation("Viseca record `%s` / category %r: imported as payee %r -> %s (%s); rules applied in order, each seeing the payee as "
+                              "rewritten by the earlier ones, give payee %r -> %s (%s)"
+                              % (r_["payee"], r_["category"], got_payee, got_acct, got_mark, cur, want_acct, want_mark), replay)
+                break
+
+
 # the CSV statements restated from the FILE TEXT (csv reader model of C16, Lemmas/CsvTextFile.lean)
 FILE_THEOREMS = ['Okane.Import.C17_csv_import_file']
 
@@ -699,6 +805,7 @@ def run(chk):
     run_rules(chk, 700 if quick else 15000, 6 if quick else 12)
     run_invalid(chk)
     run_binary(chk, 12 if quick else 120, 10)
+    run_viseca_chain(chk, 150 if quick else 4000)
     # known finding F14: replayed on the real Viseca importer
     line, seen = replay_f14(chk)
     texts = sorted(seen)
